@@ -813,7 +813,7 @@ func TestUndStruct(t *testing.T) {
 		}
 		return undCase{G: g, K: 0}
 	}, checkUnd)
-	vk.Run(t, "und-struct", vk.Opts{Quick: 5000, Thorough: 150000, NoCrumb: true}, drawUnd, checkUnd)
+	vk.Run(t, "und-struct", vk.Opts{Quick: 8000, Thorough: 150000, NoCrumb: true}, drawUnd, checkUnd)
 }
 
 var _ = sort.Ints
